@@ -154,7 +154,8 @@ def struct(r, name="S"):
                 pass
         fields.append(Field(fname, r.choice(["i32", "String", "Vec<i32>", "Inner"]), fa))
     if feature == "child":
-        attrs.append(Instr("child_parents", "c1: C1, c1.c2: m::C2", tag=("cp", None)))
+        # nested struct types may carry generic arguments, in either spelling (they are written in expression position)
+        attrs.append(Instr("child_parents", "c1: " + r.choice(["C1", "C1", "R<T>", "m::R<i32, u8>", "R::<T>"]) + ", c1.c2: " + r.choice(["m::C2", "m::C2", "Q<Vec<u8>>"]), tag=("cp", None)))
     if feature == "ghosts" or r.random() < 0.15:
         for c in ([None] if uniform and r.random() < 0.6 else cps):
             tn = tnamed[cps[0]] if c is None else tnamed[c]
